@@ -115,6 +115,7 @@ type kb struct {
 	p        *g.Program
 	nlab     int
 	lds      bool
+	ldsExtra int // bytes of LDS declared behind the per-work-item slots (motif.go ldsRBW)
 	oStr     int // bytes per work-item in OUT
 	iStr     int // bytes per work-item in IN
 	iShift   int
@@ -532,7 +533,7 @@ func (k *kb) codeObject() (*insts.KernelCodeObject, error) {
 		WIVgprCount:                   uint16(decl),
 	}
 	if k.lds {
-		meta.GroupSegmentByteSize = uint32(pow2ceil(k.l.wgSize()) * ldsPer)
+		meta.GroupSegmentByteSize = uint32(pow2ceil(k.l.wgSize())*ldsPer + k.ldsExtra)
 	}
 	ver := insts.CodeObjectV3
 	if k.v5 {
